@@ -615,9 +615,9 @@ def case_precondition(ctx, rng, fl, kind, digits, feats):
     for _ in range(rng.randint(1, 3)):
         op = rng.choice(CMP)
         lhs = gen_poly(rng, fl, kind, max_deg=rng.choice([1, 2, 3]))
-        rhs = gen_coef(rng, kind)
+        rhs = gen_coef(rng, kind) if rng.random() < 0.65 else gen_poly(rng, fl, kind if kind != "near" else "dec", max_deg=1, nterms=rng.randint(1, 2))
         ineqs.append((op, lhs, rhs))
-    conds = [f"(= (+ {x} {pddl(L)}) {c})" for x, L, c in eqs] + [f"({op} {pddl(l)} {r})" for op, l, r in ineqs]
+    conds = [f"(= (+ {x} {pddl(L)}) {c})" for x, L, c in eqs] + [f"({op} {pddl(l)} {pddl(r)})" for op, l, r in ineqs]
     rng.shuffle(conds)
     fdecl = []
     for f in LIFTED:
